@@ -3,8 +3,8 @@ CONSTANTS
   N = 3
   Threads <- T_two
   MaxSteps = 6
-  FixPrune = TRUE
-  FixRestart = TRUE
+  FixPrune = FALSE
+  FixRestart = FALSE
   Hist = FALSE
   Atomic = FALSE
   Ops <- Ops_all
